@@ -265,6 +265,19 @@ type tEmbedPtrTaggedUnexported struct {
 	W         int
 }
 
+// a wide struct whose values are usually sparse (fast paths keyed on the number of properties)
+type tWideSparse struct {
+	A  int
+	B1 int    `json:"b1,omitempty"`
+	B2 bool   `json:"b2,omitempty"`
+	B3 string `json:"b3,omitempty"`
+	B4 int8   `json:"b4,omitempty"`
+	B5 bool   `json:"b5,omitempty"`
+	B6 string `json:"b6,omitempty"`
+	B7 uint8  `json:"b7,omitempty"`
+	B8 bool   `json:"b8,omitempty"`
+}
+
 type tStd struct {
 	T  time.Time
 	L  slog.Level
@@ -358,7 +371,7 @@ func TypeFamily() []TypeCase {
 		tc[tEmbedValue]("tEmbedValue"), tc[tEmbedPtr]("tEmbedPtr"), tc[tEmbedShadow]("tEmbedShadow"), tc[tEmbedAmbiguous]("tEmbedAmbiguous"), tc[tEmbedTagged]("tEmbedTagged"), tc[tEmbedScalar]("tEmbedScalar"), tc[tEmbedTaggedExported]("tEmbedTaggedExported"),
 		tc[tEmbedTaggedThenPlain]("tEmbedTaggedThenPlain"), tc[tEmbedScalarThenPlain]("tEmbedScalarThenPlain"), tc[tEmbedDeepTagged]("tEmbedDeepTagged"), tc[tEmbedDeepPlain]("tEmbedDeepPlain"), tc[tEmbedPlainThenTagged]("tEmbedPlainThenTagged"),
 		tc[tNameShallowFirst]("tNameShallowFirst"), tc[tNameShallowLast]("tNameShallowLast"), tc[tNameTaggedWins]("tNameTaggedWins"), tc[tNameDeepConflict]("tNameDeepConflict"), tc[tNameShadowOmit]("tNameShadowOmit"), tc[tEmbedUnexportedScalar]("tEmbedUnexportedScalar"),
-		tc[tNameTagSameAsField]("tNameTagSameAsField"), tc[tNameTwoEmbTagged]("tNameTwoEmbTagged"), tc[tNameTwoEmbTagSameAsField]("tNameTwoEmbTagSameAsField"), tc[tEmbedPtrTaggedUnexported]("tEmbedPtrTaggedUnexported"),
+		tc[tNameTagSameAsField]("tNameTagSameAsField"), tc[tNameTwoEmbTagged]("tNameTwoEmbTagged"), tc[tNameTwoEmbTagSameAsField]("tNameTwoEmbTagSameAsField"), tc[tEmbedPtrTaggedUnexported]("tEmbedPtrTaggedUnexported"), tc[tWideSparse]("tWideSparse"),
 		tc[tNamed]("tNamed"), tc[tNamedInt]("tNamedInt"), tc[tNamedSlice]("tNamedSlice"), tc[tDup]("tDup"), tc[tWeirdTags]("tWeirdTags"),
 	}
 	std := tc[tStd]("tStd")
